@@ -299,6 +299,17 @@ class Extractor:
                 cond = {"k": "letexpr", "pat": x["pat"], "init": x["init"], "sp": x.get("sp"), "ty": "bool"}
                 node = {"k": "if", "cond": cond, "then": {"k": "block", "stmts": list(nodes[i + 1:]), "sp": x.get("sp")}, "sp": x.get("sp")}
                 return out + pre + [(None, {"i": "if", "cond": cond, "then": rest, "else": [], "tn": node["then"], "en": None, "node": node})]
+            # `let PAT = e else { <stream ops>; return/continue };  <rest>`  ==  `if let PAT = e { <rest> } else { <stream ops> }`
+            if x.get("k") == "let" and "els" in x and "init" in x and H.diverges(x["els"]) and has_stream_ops(x["els"], self.side):
+                els = self.walk(x["els"])
+                declined = (self.side == "r" and len(els) == 1 and els[0][1].get("i") == "skip" and els[0][1].get("n") is None)
+                if els and not declined:
+                    rest = self.seq(nodes[i + 1:])
+                    pre = self.walk(x["init"])
+                    cond = {"k": "letexpr", "pat": x["pat"], "init": x["init"], "sp": x.get("sp"), "ty": "bool"}
+                    then = {"k": "block", "stmts": list(nodes[i + 1:]), "sp": x.get("sp")}
+                    node = {"k": "if", "cond": cond, "then": then, "else": x["els"], "sp": x.get("sp")}
+                    return out + pre + [(None, {"i": "if", "cond": cond, "then": rest, "else": els, "tn": then, "en": x["els"], "node": node})]
             out.extend(self.walk(x))
         return out
 
